@@ -18,8 +18,13 @@ const (
 	tInt  = 2 // int
 	tMap  = 3 // map[string]any (output of a Parallel member, input of the join lambda)
 	tIn   = 4 // struct In{X,Y string} (target of workflow field mappings)
-	tAny  = 5 // any: the element type of map[string]any (only as the type of a mapped field)
+	tAny  = 5 // any: the element type of map[string]any as the type of a mapped field; the input / output type of the lambdas a, sa; a branch condition over any
+	tT    = 6 // *tT: implements fooer and barer
+	tFoo  = 7 // interface fooer
+	tBar  = 8 // interface barer
 )
+
+func isIfaceT(t int) bool { return t == tAny || t == tFoo || t == tBar }
 
 // Op is one call of a front end.
 //
@@ -30,19 +35,20 @@ type Op struct {
 	K string `json:"k"`
 
 	Key string `json:"key,omitempty"` // node key (L, P, WN)
-	Typ string `json:"typ,omitempty"` // lambda type: s (string→string), i (int→int), si, is, m (map→string), S (In→string), sS (string→In); WN: "" = use existing handle, P passthrough, G nested graph
+	Typ string `json:"typ,omitempty"` // lambda type: s (string→string), i (int→int), si, is, m (map→string), S (In→string), sS (string→In), a (any→string), sa (string→any), sT (string→*tT), F (fooer→string), R (barer→string); WN: "" = use existing handle, P passthrough, G nested graph
 	H   string `json:"h,omitempty"`   // add-node option variant, see hSpec
 
 	From string   `json:"from,omitempty"` // E, B, WB
 	To   string   `json:"to,omitempty"`   // E
 	Ends []string `json:"ends,omitempty"` // B, WB
-	Cond string   `json:"cond,omitempty"` // B, CBr: condition input type s | i
+	Cond string   `json:"cond,omitempty"` // B, WB, CBr: condition input type s | i | a (any)
 
 	N int `json:"n,omitempty"` // CPar / CBr: number of members; -1 = nil argument
 
-	In []WIn `json:"in,omitempty"` // WN: inputs declared on the handle
+	In []WIn  `json:"in,omitempty"`           // WN: inputs declared on the handle
+	SV string `json:"static_value,omitempty"` // WN: SetStaticValue(FieldPath{SV}, "sv") on the handle, after the inputs
 
-	Opt string `json:"opt,omitempty"` // K: "+"-separated list of all, any, max, name, store (in that order of options)
+	Opt string `json:"opt,omitempty"` // K: "+"-separated list of all, any, max, name, store, ib=<key> (WithInterruptBeforeNodes), ia=<key> (WithInterruptAfterNodes), in that order of options
 
 	Sub *Sub `json:"sub,omitempty"` // GN, CG, WN with Typ "G": the graph that is added as a node
 }
@@ -55,6 +61,8 @@ type Sub struct {
 	Text   string `json:"calls"`
 	HasOpt bool   `json:"with_compile_options,omitempty"`
 	Opt    string `json:"compile_options,omitempty"`
+	// Pre: the graph is compiled standalone (no options) before it is added as a node
+	Pre bool `json:"compiled_standalone_first,omitempty"`
 }
 
 func newSub(fe string, ops []Op, hasOpt bool, opt string) *Sub {
@@ -65,6 +73,9 @@ func (s *Sub) String() string {
 	t := "{" + s.FE + ": " + s.Text
 	if s.HasOpt {
 		t += " | opts(" + s.Opt + ")"
+	}
+	if s.Pre {
+		t += " | compiled standalone first"
 	}
 	return t + "}"
 }
@@ -120,8 +131,8 @@ func (o Op) String() string {
 		b.WriteString("E(" + o.From + "," + o.To + ")")
 	case "B", "WB":
 		b.WriteString(o.K)
-		if o.Cond == "i" {
-			b.WriteString("i")
+		if o.Cond == "i" || o.Cond == "a" {
+			b.WriteString(o.Cond)
 		}
 		b.WriteString("(" + o.From + ">" + strings.Join(o.Ends, "|") + ")")
 	case "CPar", "CBr":
@@ -167,6 +178,9 @@ func (o Op) String() string {
 			if in.Field != "" {
 				b.WriteString(":" + in.Field)
 			}
+		}
+		if o.SV != "" {
+			b.WriteString(";" + o.SV + "=sv")
 		}
 		b.WriteString(")")
 	case "K":
@@ -238,13 +252,26 @@ func lambdaTypes(typ string) (int, int) {
 		return tIn, tStr
 	case "sS":
 		return tStr, tIn
+	case "a":
+		return tAny, tStr
+	case "sa":
+		return tStr, tAny
+	case "sT":
+		return tStr, tT
+	case "F":
+		return tFoo, tStr
+	case "R":
+		return tBar, tStr
 	}
 	return tStr, tStr
 }
 
 func condType(c string) int {
-	if c == "i" {
+	switch c {
+	case "i":
 		return tInt
+	case "a":
+		return tAny
 	}
 	return tStr
 }
